@@ -17,6 +17,10 @@ PROP = {
          "tests": [("TestVFC05ClientStoragePrograms", (60, 300))], "shards": (2, 16)},
         {"name": "dhcpd", "pkg": "internal/dhcpd", "files": ["dhcpd/c10_world_test.go", "dhcpd/c05_dhcp_test.go"],
          "tests": [("TestVFC05DHCPPrograms", (60, 300)), ("TestVFC05DHCPLastAddress", (30, 60))], "shards": (2, 16)},
+        # the modules wired the way home wires them: admin calls || background configuration saves || readers
+        {"name": "home", "pkg": "internal/home",
+         "files": ["home/common_assembly_test.go", "home/c04_http_test.go", "home/c05_home_test.go"],
+         "tests": [("TestVFC05HomePrograms", (40, 200))], "shards": (2, 16)},
     ],
     "level": "exploration",
     "technique": "generated concurrent programs (rapid) executed under the Go race detector with halt_on_error; "
